@@ -49,6 +49,11 @@ type FCBody struct {
 	// the holds it has replicated, for RepointForS seconds, and is then pointed back at the leader
 	RepointMs   int `json:"repoint_ms,omitempty"`
 	RepointForS int `json:"repoint_for_s,omitempty"`
+	// LingerState > 0: once the clients are done the last follower is put into that state (STATE_VOTE or
+	// STATE_CONFIG, by SLock.updateState, which is what the arbiter does to a member at the start of its
+	// candidacy and when it is taken out of the set) and stays in it while the run lingers: the replicated
+	// holds whose deadlines pass meanwhile are not the node's to end in those states either
+	LingerState uint8 `json:"linger_state,omitempty"`
 }
 
 func genFollowerClients(prop string, seed uint64, tier string) *Scenario {
@@ -116,6 +121,13 @@ func genFollowerClients(prop string, seed uint64, tier string) *Scenario {
 	if r.Intn(3) == 0 && !(body.NFollowers == 1 && body.RestartFollowerMs > 0) {
 		body.RepointMs = 1500 + r.Intn(6000)
 		body.RepointForS = 5 + r.Intn(40)
+	}
+	if ls := ssched.Sub(seed, "lingerstate"); ls.Intn(3) == 0 {
+		// a draw stream of its own
+		body.LingerState = []uint8{STATE_VOTE, STATE_CONFIG}[ls.Intn(2)]
+		if body.LingerS < 15 {
+			body.LingerS = 15 + ls.Intn(25)
+		}
 	}
 	raw, _ := json.Marshal(body)
 	k := genKnobs(r)
@@ -508,6 +520,13 @@ func runFollowerClients(w *World) {
 		}
 		for cdone < len(body.Clients) {
 			sleep(50 * time.Millisecond)
+		}
+		if body.LingerState > 0 {
+			if fn := fr.fnodes[len(fr.fnodes)-1]; fn != nil && fn.sl != nil && fn.ready {
+				st := body.LingerState
+				ssched.SpawnOn(fn.id, "linger-state", func() { fn.sl.updateState(st) })
+				w.probe(fmt.Sprintf("followers_lingering_in_state_%d", st))
+			}
 		}
 		// the followers' own clocks must not end the replicated holds while we linger
 		sleep(time.Duration(body.LingerS) * time.Second)
